@@ -5,6 +5,7 @@ import PyxModel.Prebuild.Recipe
 import Proofs.PbShape          -- PBSHAPE: source tie of the flat builder
 import Proofs.PbShapeMore      -- PBSHAPE, continued: relate / unrelate, return with a value, more values, while / if
 import Proofs.PbShapeMore2     -- PBSHAPE, continued: the whole if chain with the handlers as oracles, `self`, create / select
+import Proofs.PbShapeDecl      -- PBSHAPE, continued: v_var / v_int / v_ins = newVar, create / select from for ALL states
 import Proofs.PrebuildFlatStmt   -- FLAT: the flat population model
 
 /-!
@@ -1059,7 +1060,8 @@ example : (callFn (mkEnv cmpDemoFc {}) 20 accept_SelfAccessNode [.node] [] cmpDe
     = some ([.blk true, .val 0, .irf 1 0], false) := by decide
 
 /-- accept_CreateObjectNode / accept_SelectFromNode are no longer stuck (ACT_CR: R603, R633, R671; ACT_FIO: R603, R639, R677;
-    the implicit declaration runs the generated helpers v_int / v_ins / v_var).  NOT yet proved for every state: on this state
+    the implicit declaration runs the generated helpers v_int / v_ins / v_var).  Proved for every state further down
+    (`create_object_as_in_source`, `select_from_as_in_source`); first, kernel-evaluated: on this state
     the generated handlers produce exactly the rows of the `.create` / `.selFrom` clauses of `buildStmt` -/
 example : (callFn (mkEnv selfDemoFc { strs := [("variable_name", "d"), ("key_letter", "DOG")] }) 20 accept_CreateObjectNode
       [.node] [] cmpDemoG).map (fun r => (r.1, r.2.st.pop, r.2.st.ok))
@@ -1071,6 +1073,91 @@ example : (callFn (mkEnv selfDemoFc { strs := [("variable_name", "ds"), ("key_le
     = some (.inst 1, [.blk true, .smt 0 none, .var "ds" 0, .vins 2 "DOG", .fio 1 2 "DOG" "many"], true) := by decide
 example : (buildStmt selfDemoFc none (.selFrom "many" "ds" "DOG") cmpDemoG.st).2.pop
     = [.blk true, .smt 0 none, .var "ds" 0, .vins 2 "DOG", .fio 1 2 "DOG" "many"] := by decide
+
+/-! round 12: the declaring statements for ALL states.  The helpers `v_var` / `v_int` / `v_ins` of the generated IR are `newVar` of
+    Flat.lean (V_VAR with R823, V_LOC / R835 / R848 not stored, the R814 subtype with R818 / R819, install_symbol), and with them
+    accept_CreateObjectNode / accept_SelectFromNode are the `.create` / `.selFrom` clauses of `buildStmt`. -/
+
+/-- `v_int(node, name, o_obj)` / `v_ins(node, name, o_obj)` with the class `kl` in scope ARE `newVar name (V_INT / V_INS of kl)`
+    for every state whose current block handle is an ACT_BLK row; they answer the subtype row (the row after the V_VAR) -/
+theorem declare_variable_as_in_source (fc : FCtx) (nd : Node) (g : G) (n : Nat) (name kl : String) (hb : BlkOK g.st) :
+    callFn (mkEnv fc nd) (n + 11) v_int [.node, .str name, .obj kl] [] g
+        = some (.inst (g.st.pop.length + 1), { g with st := (newVar name (fun i => .vint i kl) g.st).2 })
+    ∧ callFn (mkEnv fc nd) (n + 11) v_ins [.node, .str name, .obj kl] [] g
+        = some (.inst (g.st.pop.length + 1), { g with st := (newVar name (fun i => .vins i kl) g.st).2 }) :=
+  ⟨v_int_fuel fc nd g n name kl hb, v_ins_fuel fc nd g n name kl hb⟩
+
+/-- `accept_CreateObjectNode` IS the `.create v kl` clause of `buildStmt`, for every state: act_smt, o_obj(key_letter),
+    find_symbol(variable_name), v_int + `one(v_int).V_VAR[814]` when nothing was found (= `declVar`), ACT_CR with R603, R633 := the
+    variable, R671 := the class.  Hypotheses: `BlkOK`; what find_symbol answers is a V_VAR row (`VarAns`); the class is in scope
+    (`kl ∈ fc.classes`: otherwise the source raises at `relate(o_obj, v_int, 818)` with an EMPTY referential where the model — which
+    goes on with `ok = false` — writes `kl`); the variable is not `self` (the model refuses it, the source re-declares it). -/
+theorem create_object_as_in_source (fc : FCtx) (nd : Node) (g : G) (n : Nat) (v kl : String) (hb : BlkOK g.st)
+    (hn : nd.strs.lookup "variable_name" = some v) (hk : nd.strs.lookup "key_letter" = some kl)
+    (hv : v ≠ "self") (hc : kl ∈ fc.classes)
+    (hva : VarAns (lookupVar fc v (newSmt none g.st).2)) :
+    callFn (mkEnv fc nd) (n + 20) accept_CreateObjectNode [.node] [] g
+      = some (.inst (buildStmt fc none (.create v kl) g.st).1,
+              { g with st := (buildStmt fc none (.create v kl) g.st).2 }) :=
+  create_object_eq fc nd g n v kl hb hn hk hv hc hva
+
+/-- `accept_SelectFromNode` IS the `.selFrom card v kl` clause of `buildStmt`, for every state: act_smt, find_symbol, o_obj,
+    v_ins (node.many) or v_int when nothing was found, ACT_FIO (cardinality in lower case) with R603, R639 := the variable,
+    R677 := the class.  `node.many` is a property of the syntax node (bridgepoint/oal.py: `cardinality.lower() == 'many'`), here the
+    string field "many" (empty = False) which must agree with the model's `isMany card`. -/
+theorem select_from_as_in_source (fc : FCtx) (nd : Node) (g : G) (n : Nat) (card v kl m : String) (hb : BlkOK g.st)
+    (hn : nd.strs.lookup "variable_name" = some v) (hk : nd.strs.lookup "key_letter" = some kl)
+    (hcd : nd.strs.lookup "cardinality" = some card) (hm : nd.strs.lookup "many" = some m)
+    (hmc : (m != "") = Flat.isMany card)
+    (hv : v ≠ "self") (hc : kl ∈ fc.classes)
+    (hva : VarAns (lookupVar fc v (newSmt none g.st).2)) :
+    callFn (mkEnv fc nd) (n + 20) accept_SelectFromNode [.node] [] g
+      = some (.inst (buildStmt fc none (.selFrom card v kl) g.st).1,
+              { g with st := (buildStmt fc none (.selFrom card v kl) g.st).2 }) :=
+  select_from_eq fc nd g n card v kl m hb hn hk hcd hm hmc hv hc hva
+
+/-- a state in which `d` is already declared (V_VAR 1, V_INT 2 of DOG) -/
+def declDemoG : G := { st := { pop := [.blk true, .var "d" 0, .vint 1 "DOG"], scopes := [⟨.blk 0, [("d", 1)]⟩] } }
+theorem declDemoG_blkOK : BlkOK declDemoG.st := by
+  intro b hb; exact ⟨true, by simp [declDemoG, curBlk] at hb; subst hb; rfl⟩
+
+/-- applied, `create object instance d of DOG;` with `d` unknown: the hypotheses are discharged, `d` is declared (V_VAR 2, V_INT 3) -/
+example : (callFn (mkEnv selfDemoFc { strs := [("variable_name", "d"), ("key_letter", "DOG")] }) (0 + 20) accept_CreateObjectNode
+      [.node] [] cmpDemoG).map (fun r => (r.1, r.2.st.pop, r.2.st.ok))
+    = some (.inst 1, [.blk true, .smt 0 none, .var "d" 0, .vint 2 "DOG", .cr 1 2 "DOG"], true) := by
+  rw [create_object_as_in_source selfDemoFc _ cmpDemoG 0 "d" "DOG" cmpDemoG_blkOK rfl rfl (by decide) (by decide)
+    (VarAns.of_none (by decide))]
+  decide
+
+/-- … and with `d` visible: no declaration, R633 names the V_VAR that is there -/
+example : (callFn (mkEnv selfDemoFc { strs := [("variable_name", "d"), ("key_letter", "DOG")] }) (0 + 20) accept_CreateObjectNode
+      [.node] [] declDemoG).map (fun r => (r.1, r.2.st.pop, r.2.st.ok))
+    = some (.inst 3, [.blk true, .var "d" 0, .vint 1 "DOG", .smt 0 none, .cr 3 1 "DOG"], true) := by
+  rw [create_object_as_in_source selfDemoFc _ declDemoG 0 "d" "DOG" declDemoG_blkOK rfl rfl (by decide) (by decide)
+    (VarAns.of_eq (v := 1) (nm := "d") (b := 0) (by decide) (by decide))]
+  decide
+
+/-- applied, `select many ds from instances of DOG;` (a V_INS) and `select any d from instances of DOG;` (a V_INT) -/
+example : (callFn (mkEnv selfDemoFc { strs := [("variable_name", "ds"), ("key_letter", "DOG"), ("cardinality", "many"), ("many", "x")] })
+      (0 + 20) accept_SelectFromNode [.node] [] cmpDemoG).map (fun r => (r.1, r.2.st.pop, r.2.st.ok))
+    = some (.inst 1, [.blk true, .smt 0 none, .var "ds" 0, .vins 2 "DOG", .fio 1 2 "DOG" "many"], true) := by
+  rw [select_from_as_in_source selfDemoFc _ cmpDemoG 0 "many" "ds" "DOG" "x" cmpDemoG_blkOK rfl rfl rfl rfl (by decide) (by decide)
+    (by decide) (VarAns.of_none (by decide))]
+  decide
+example : (callFn (mkEnv selfDemoFc { strs := [("variable_name", "d"), ("key_letter", "DOG"), ("cardinality", "any"), ("many", "")] })
+      (0 + 20) accept_SelectFromNode [.node] [] cmpDemoG).map (fun r => (r.1, r.2.st.pop, r.2.st.ok))
+    = some (.inst 1, [.blk true, .smt 0 none, .var "d" 0, .vint 2 "DOG", .fio 1 2 "DOG" "any"], true) := by
+  rw [select_from_as_in_source selfDemoFc _ cmpDemoG 0 "any" "d" "DOG" "" cmpDemoG_blkOK rfl rfl rfl rfl (by decide) (by decide)
+    (by decide) (VarAns.of_none (by decide))]
+  decide
+
+/-- outside the hypothesis `kl ∈ fc.classes` model and source text part ways on the FAILED run (both `ok = false`): the source
+    leaves the referentials of R818 / R671 empty, the model writes the key letters -/
+example : (callFn (mkEnv cmpDemoFc { strs := [("variable_name", "d"), ("key_letter", "DOG")] }) 20 accept_CreateObjectNode
+      [.node] [] cmpDemoG).map (fun r => (r.2.st.pop, r.2.st.ok))
+    = some ([.blk true, .smt 0 none, .var "d" 0, .vint 2 "", .cr 1 2 ""], false)
+  ∧ ((buildStmt cmpDemoFc none (.create "d" "DOG") cmpDemoG.st).2.pop, (buildStmt cmpDemoFc none (.create "d" "DOG") cmpDemoG.st).2.ok)
+    = ([.blk true, .smt 0 none, .var "d" 0, .vint 2 "DOG", .cr 1 2 "DOG"], false) := by decide
 
 end PbShape
 
